@@ -149,8 +149,20 @@ def pBtOp : P Op := do
     let limit ← pInt
     let f ← pFilter
     pure (.read n keys ranges limit f)
+  | "readf" => do
+    let n ← pBytes
+    let failAt ← pNat
+    let keys ← pList pBytes
+    let ranges ← pList (do let s ← pBound; let e ← pBound; pure (RowRange.mk s e))
+    let limit ← pInt
+    let f ← pFilter
+    pure (.readFail n failAt keys ranges limit f)
   | "keys" => do let n ← pBytes; pure (.keys n)
   | "gc" => do let n ← pBytes; pure (.gc n)
+  | "gcw" => do
+    let n ← pBytes
+    let es ← pList (do let k ← pBytes; let ms ← pList pMutation; pure (k, ms))
+    pure (.gcw n es)
   | _ => fail
 
 /-! ### Canonical printing -/
